@@ -11,6 +11,7 @@ import KitProofs.Lemmas.EncDecrypt
 import KitProofs.Lemmas.EncToy
 import KitProofs.Lemmas.EncRealLaws
 import KitProofs.Lemmas.EncCodecLaws
+import KitProofs.Lemmas.EncPipe
 
 namespace Kit.Enc.C01
 open Kit Kit.Enc
@@ -189,6 +190,37 @@ theorem decrypt_encryptImpl (c : Crypto) (cd : Codec) (P : EncParams) (pwf : P.W
 /-- The parameters regenerated from the Go source satisfy what the theorems assume. -/
 theorem generated_wf : EncParams.generated.WF :=
   ⟨by decide, by decide, by decide⟩
+
+/-! ### the consumer's chunking -/
+
+/-- `io.Pipe` with the consumer's read sizes as a script: whatever sizes the consumer of the stream
+    returned by `Decrypt` reads with (any finite script, zero-length reads included, then any positive
+    size), it receives exactly the released bytes and the terminal of `decryptImpl` — for every
+    document source and script. -/
+theorem decrypt_consumer_independent (c : Crypto) (cd : Codec) (P : EncParams) (pwf : P.WF) (o : DecryptOpts)
+    (r : Reader) (bufs : List Nat) (dflt : Nat) (hd : 0 < dflt) :
+    Pipe.decryptConsumed c cd P o r bufs dflt = decryptImpl c cd P o r := by
+  unfold Pipe.decryptConsumed
+  obtain ⟨h1, h2⟩ := Pipe.consumeAll_spec (Pipe.decryptPipe c cd P o r).1 (Pipe.decryptPipe c cd P o r).2 bufs dflt hd
+  simp only [h1, h2]
+  exact Pipe.decryptPipe_eq c cd P pwf.seg_pos o r
+
+/-- The same for the stream returned by `Encrypt`. -/
+theorem encrypt_consumer_independent (c : Crypto) (cd : Codec) (P : EncParams) (pwf : P.WF) (o : EncryptOpts)
+    (fk np wfk : Bytes) (r : Reader) (bufs : List Nat) (dflt : Nat) (hd : 0 < dflt) :
+    Pipe.encryptConsumed c cd P o fk np wfk r bufs dflt = encryptImpl c cd P o fk np wfk r := by
+  unfold Pipe.encryptConsumed
+  obtain ⟨h1, h2⟩ := Pipe.consumeAll_spec (Pipe.encryptPipe c cd P o fk np wfk r).1
+    (Pipe.encryptPipe c cd P o fk np wfk r).2 bufs dflt hd
+  simp only [h1, h2]
+  exact Pipe.encryptPipe_eq c cd P pwf.seg_pos o fk np wfk r
+
+/-- The pipe itself: any consumer script receives the concatenation of the writes and the close status. -/
+theorem pipe_consumer_irrelevant (ws : List Bytes) (term : Terminal) (bufs : List Nat) (dflt : Nat) (hd : 0 < dflt) :
+    (Pipe.consumeAll ws term bufs dflt).1.flatten = ws.flatten ∧ (Pipe.consumeAll ws term bufs dflt).2 = term :=
+  Pipe.consumeAll_spec ws term bufs dflt hd
+
+example : (Pipe.consumeAll [[1, 2, 3], [4, 5]] .ok [2, 0, 5] 1).1 = [[1, 2], [], [3], [4], [5]] := by decide
 
 /-! ### the concrete Lean crypto the driver runs -/
 
